@@ -85,7 +85,8 @@ class C10(Check):
     driver = "drv_c10"
     theorems = ["Pox.C10.ctl_terminates", "Pox.C10.sw_terminates", "Pox.C10.ctl_unguarded_spins", "Pox.C10.sw_contained",
                 "Pox.C10.siblings_untouched", "Pox.C10.ctl_no_overread", "Pox.C10.sw_no_overread",
-                "Pox.C10.ctl_disconnect_stops", "Pox.C10.ctl_no_disconnect_same"]
+                "Pox.C10.ctl_disconnect_stops", "Pox.C10.ctl_no_disconnect_same",
+                "Pox.C10.sw_trace_is_feed", "Pox.C10.sw_answered_or_closed", "Pox.C10.sw_replies_only_for_skips"]
     anchors = [("pox/openflow/of_01.py", "Connection.read"), ("pox/openflow/of_01.py", "OpenFlow_01_Task.run"),
                ("pox/datapaths/switch.py", "OFConnection.read"), ("pox/datapaths/switch.py", "OFConnection._error_handler"),
                ("pox/datapaths/switch.py", "OFConnection._extract_message_xid"), ("pox/lib/ioworker/__init__.py", "RecocoIOLoop.run"),
@@ -372,6 +373,8 @@ class C10(Check):
         def eh(reason, info):
             head = bytes(workers[0].receive_buf[:8])
             skips.append([int(reason), int.from_bytes(head[4:8], "big") if len(head) >= 8 else 0])
+            if int(reason) == 2:                          # no decoder for this type: tell the model (no decoder call to record)
+                k = bytes(workers[0].receive_buf).hex(); table[k] = {"k": k, "r": "none"}
             return real_eh(reason, info)
         ofcs[0]._error_handler = eh
         sib_del = [[], []]
@@ -426,7 +429,7 @@ class C10(Check):
             ln = (sent[p + 2] << 8) | sent[p + 3]
             if ln < 8: break
             if sent[p + 1] == 1:
-                errs.append([(sent[p + 8] << 8) | sent[p + 9], (sent[p + 10] << 8) | sent[p + 11], int.from_bytes(sent[p + 4:p + 8], "big")])
+                errs.append([(sent[p + 8] << 8) | sent[p + 9], (sent[p + 10] << 8) | sent[p + 11], int.from_bytes(sent[p + 4:p + 8], "big"), bytes(sent[p + 12:p + ln]).hex()])
             p += ln
         return {"delivered": delivered, "counts": counts, "buf": bytes(workers[0].receive_buf).hex() if st == "alive" else None, "status": st,
                 "sib_status": ["closed" if (workers[k].closed or workers[k]._shutdown_send) else "alive" for k in (1, 2)], "sib_delivered": sib_del, "loop_alive": alive[0],
@@ -460,12 +463,14 @@ class C10(Check):
             st, buf = "alive", obs["buf_pre"]          # the model is asked about the chunks read before the peer went away
         v = {"delivered": obs["delivered"], "counts": obs["counts"], "status": st}
         if st == "alive": v["buf"] = buf
+        if case["side"] == "sw": v["errors"] = obs["errors"]          # every error reply, in order: [type, code, xid, data]
         return v
 
     def model_obs(self, case, resp):
         if "error" in resp: return resp
         v = {"delivered": resp["delivered"], "counts": resp["counts"], "status": resp["status"]}
         if resp["status"] == "alive": v["buf"] = resp["buf"]
+        if case["side"] == "sw": v["errors"] = resp["errors"]
         return v
 
     # ------------------------------------------------------------------ the property on the implementation
@@ -498,7 +503,7 @@ class C10(Check):
             # every message the switch skipped (no decoder for its type: reason 2; undecodable / wrong length: reason 3)
             # must have been answered with OFPET_BAD_REQUEST and the matching code, carrying the message's xid
             want = [[1, {2: 1, 3: 6}[r], x] for r, x in obs.get("skips", []) if r in (2, 3)]
-            got = [e for e in obs.get("errors", []) if e[0] == 1 and e[1] in (1, 6)]
+            got = [e[:3] for e in obs.get("errors", []) if e[0] == 1 and e[1] in (1, 6)]
             # reason 4 = the message handler raised AFTER the message was decoded and consumed; only a scripted handler does
             silent = [r for r, x in obs.get("skips", []) if r not in (1, 2, 3) and not (r == 4 and case.get("hraise"))]
             if silent and obs["status"] == "alive": return "sw: message skipped without an error reply (handler reason %d)" % silent[0]
